@@ -9,7 +9,7 @@ checks = json.load(open(os.path.join(VERIF, "checks.json")))
 SIM = "deterministic simulation with fault injection"
 claimed = {
  "C01": dict(
-  text="Seeded search over histories x crash points x torn WAL tails on a real tsdb.Store: crash images are cut at hook events of every durable step, reopened by a fresh store and compared with the model of acknowledged writes, to depth 3 crash/restart cycles including crashes during recovery. Sampling, not proof.",
+  text="Seeded search over histories x crash points x torn WAL tails on a real tsdb.Store: crash images are cut at hook events of every durable step, reopened by a fresh store and compared with the model of acknowledged writes, to depth 3 crash/restart cycles including crashes during recovery. Histories include cache snapshots that fail at the new file's fsync (1-3 attempts with further acknowledged writes in between, then possibly the attempt that succeeds) and deletes / drops issued while a failed snapshot is still held by the cache. Sampling, not proof.",
   note="durability is the SimDisk loss model: fsync/SyncDir trusted, directory operations durable in program order, unsynced WAL tail cut at any byte (zero-fill only from an entry boundary); index and series files copied as written",
   technique=SIM + ": rapid-seeded op/fault plans, crash images at verifhook durable-step events, last-write-wins reference model, shrinking to a minimal replay file",
   ref="3 C01, 2.5"),
